@@ -480,6 +480,40 @@ def hamming_rows_evaluated(fi: FuncInfo):
     return OK, "rows = all mu-tuples of weight >= 2, each once; extension column = overall parity (mu = 2..5)"
 
 
+#: (n, g) the systematic cyclic generator construction is evaluated for (g divides X^n + 1)
+CYCLIC_SAMPLES = ((7, 0b1011), (7, 0b1101), (7, 0b10111), (15, 0b10011), (15, 0b111010001), (23, 0b101011100011), (31, 0b100101))
+
+
+def cyclic_matrix_evaluated(repo: Repo, gi):
+    """_generate_systematic_matrix evaluated for CYCLIC_SAMPLES: row i must hold the coefficients of
+    X^(m+i) + (X^(m+i) mod g), the coefficient of X^j in column j (k x n, 0/1 entries)."""
+    from .. import gf2
+    from ..constfold import Unfoldable
+    from ..frag import FragRaise, FragReturn, run_fragment
+
+    ci = gi.cls if hasattr(gi, "cls") and gi.cls is not None else repo.cls(CYC, "CyclicCodeEncoder")
+    funcs = {f"self.{nm}": f.node for nm, f in ci.methods.items() if nm not in ("__init__", gi.name)}
+    for nn, g in CYCLIC_SAMPLES:
+        m = g.bit_length() - 1
+        k = nn - m
+        attrs = {"self._length": nn, "self._dimension": k, "self._redundancy": m, "self._generator_poly": gf2.BP(g)}
+        try:
+            run_fragment(gi.body, {}, attrs, max_steps=600000, materialise=True, funcs=funcs, ctors={"BinaryPolynomial": gf2.BP})
+            return UNDECIDED, "no value returned"
+        except FragReturn as r:
+            M = r.value
+        except (Unfoldable, FragRaise, TypeError, IndexError, ZeroDivisionError) as exc:
+            return UNDECIDED, f"{exc}"
+        if not (isinstance(M, list) and len(M) == k and all(isinstance(r_, list) and len(r_) == nn for r_ in M)):
+            return VIOLATION, f"for n = {nn}, g = {g:#b} the generator matrix is not {k} x {nn}"
+        for i in range(k):
+            word = (1 << (m + i)) ^ gf2.pmod(1 << (m + i), g)
+            want = [(word >> j) & 1 for j in range(nn)]
+            if [x for x in M[i]] != want and [float(x) for x in M[i]] != [float(x) for x in want]:
+                return VIOLATION, f"for n = {nn}, g = {g:#b} row {i} is {[int(x) if float(x) == int(x) else x for x in M[i]]}; X^{m + i} + (X^{m + i} mod g) has the coefficients {want} (coefficient of X^j in column j): the rows are not the systematic codewords of the cyclic code"
+    return OK, f"k x n with row i = coefficients of X^(m+i) + (X^(m+i) mod g) for {len(CYCLIC_SAMPLES)} sample (n, g), n up to 31"
+
+
 def rule_cyclic_layout(repo: Repo, rep: Report) -> int:
     n = 0
     gi = repo.func(CYC, "CyclicCodeEncoder._generate_systematic_matrix")
@@ -499,7 +533,16 @@ def rule_cyclic_layout(repo: Repo, rep: Report) -> int:
             if ("float(" in vt and ".value" in vt) or ("torch.floor(" in vt and "/" in vt):
                 rep.violation("CYCLIC-LAYOUT", gi, st_, "the bits of the codeword polynomial (an integer of up to n bits) are extracted through floating-point division: a float32 quotient keeps 24 significant bits, so for code lengths above 24 the low-order coefficients of each row are rounded away (the standard table goes up to n = 127)", node=st_)
                 n += 1
-    rep.expect(ok, "CYCLIC-LAYOUT", gi, "row i = X^(m+i) + (X^(m+i) mod g); coefficient of X^j stored in column j", "identity in columns m..n-1 (degree m+i), parity (degree < m) in columns 0..m-1", "systematic cyclic generator construction changed")
+    if not ok:
+        # another spelling: the construction is evaluated (own arithmetic, the polynomial class modelled by gf2.BP)
+        est, edetail = cyclic_matrix_evaluated(repo, gi)
+        if est in (OK, VIOLATION):
+            rep.add("CYCLIC-LAYOUT", gi, "systematic generator evaluated for sample (n, g)", est, edetail, node=gi.node)
+            ok = est == OK
+        else:
+            rep.undecided("CYCLIC-LAYOUT", gi, "row i = X^(m+i) + (X^(m+i) mod g); coefficient of X^j stored in column j", f"code shape not recognised and not evaluable ({edetail})", node=gi.node)
+    else:
+        rep.ok("CYCLIC-LAYOUT", gi, "row i = X^(m+i) + (X^(m+i) mod g); coefficient of X^j stored in column j", "identity in columns m..n-1 (degree m+i), parity (degree < m) in columns 0..m-1")
     n += 1
     init = repo.func(CYC, "CyclicCodeEncoder.__init__")
     ps = [s for s in stmts_of(init.body) if isinstance(s, ast.Assign) and unparse(s.targets[0]) == "parity_submatrix"]
